@@ -13,6 +13,8 @@ impl Rng {
     fn range(&mut self, lo: usize, hi: usize) -> usize { lo + self.below(hi - lo + 1) }
     fn chance(&mut self, pct: usize) -> bool { self.below(100) < pct }
 }
+/// optional cap on matrix width/height surplus (used for the short sequences run under Miri)
+pub static WIDTH_CAP: std::sync::atomic::AtomicUsize = std::sync::atomic::AtomicUsize::new(usize::MAX);
 const U: u8 = 2; // undefined
 
 struct W { m: Vec<Vec<u8>>, h: usize, w: usize, tail: usize, indexed: bool, col_valid: Vec<bool>, d: DenseBinaryMatrix, s: SparseBinaryMatrix, ops: usize, queries: usize, d4_avoided: usize }
@@ -133,9 +135,12 @@ impl W {
 
 pub fn run_sequence(seed: u64) -> (usize, usize, usize, [usize; 4]) {
     let mut rng = Rng(crate::common::Rng::new(seed));
-    let w = match rng.below(5) { 0 => [63, 64, 65, 127, 128, 129, 191, 192, 193][rng.below(9)], 1 => rng.range(1, 12), _ => rng.range(2, 200) };
-    let h = w + rng.below(70);
-    let tail0 = if rng.chance(30) { 0 } else { rng.range(0, std::cmp::min(w - 1, 70)) };
+    let w = match rng.below(6) { 0 => [63, 64, 65, 127, 128, 129, 191, 192, 193, 255, 256, 257][rng.below(12)], 1 => rng.range(1, 12), 2 => rng.range(200, 420), _ => rng.range(2, 200) };
+    let cap = WIDTH_CAP.load(std::sync::atomic::Ordering::Relaxed);
+    let w = w.min(cap);
+    let h = w + rng.below(if cap == usize::MAX { 70 } else { 6 });
+    let tail_cap = if rng.chance(20) { 260 } else { 70 };
+    let tail0 = if rng.chance(30) { 0 } else if rng.chance(25) { [63usize, 64, 65, 127, 128, 129, 192][rng.below(7)].min(w - 1) } else { rng.range(0, std::cmp::min(w - 1, tail_cap)) };
     let mut x = W { m: vec![vec![0u8; w]; h], h, w, tail: tail0, indexed: false, col_valid: vec![true; w], d: DenseBinaryMatrix::new(h, w, tail0), s: SparseBinaryMatrix::new(h, w, tail0), ops: 0, queries: 0, d4_avoided: 0 };
     let mut feat = [0usize; 4]; // freezes, partial adds, resizes, word-boundary crossings of the tail
     // construction: LDPC/LT-like sparse fill
